@@ -41,8 +41,18 @@ class _NoDaemonContext(type(mp.get_context("fork"))):  # type: ignore[misc]
 _V: Verifier | None = None
 
 
-def _work(key: str):
+def _work(key):
     assert _V is not None
+    if isinstance(key, tuple):
+        # ("excl", finding id, function): the function re-verified with the finding's witness class excluded by precondition
+        # (needed by check_known; done here, in the pool, instead of sequentially afterwards)
+        _tag, kfid, func = key
+        kf = next(f for f in load_known() if f["id"] == kfid and f.get("exclude"))
+        wc = _V.reg.witness_classes[kf["exclude"]]
+        res2, meta2 = _V.verify_function(func, extra_requires=[lambda c: wc(c, False)], only_labels=set(kf["obligations"]))
+        d = {x.label + "|" + x.path: x.status for x in res2}
+        d["__ran__"] = PROVED if (meta2.get("error") is None and meta2.get("paths", 0) > 0) else None
+        return key, d, None
     res, meta = _V.verify_function(key)
     return key, [r.to_json() for r in res], meta
 
@@ -136,6 +146,7 @@ def main() -> int:
     timeout_ms = 20000 if a.tier == "quick" else 120000
     _V = Verifier(repo, reg, Spec, timeout_ms=timeout_ms)
     _V.only_clauses = cfg.get("only_clauses")
+    _V.recheck = a.tier == "thorough"  # every discharged obligation is re-proved under a second solver configuration
     keys = expand_keys(repo, reg, pid)
     # functions whose contracts belong to another property but on which this property's statement depends
     for dep in cfg.get("depends", []):
@@ -154,8 +165,19 @@ def main() -> int:
     ctx = _NoDaemonContext()
     n_outer = max(1, min(a.jobs, len(keys) or 1))
     _V.inner_jobs = max(1, a.jobs // max(1, min(n_outer, 4)))  # only functions with many obligations fork sub-workers
+    # known findings with a witness class: their function is re-verified with the class excluded, in the same pool
+    excl_jobs = []
+    for kf in known:
+        if kf.get("exclude"):
+            for func in sorted({o.split("/")[0] for o in kf["obligations"]}):
+                if func in keys and ("excl", kf["id"], func) not in excl_jobs:
+                    excl_jobs.append(("excl", kf["id"], func))
+    n_outer = max(1, min(a.jobs, len(keys) + len(excl_jobs) or 1))
     with ctx.Pool(n_outer) as pool:
-        for key, res, meta in pool.imap_unordered(_work, keys):
+        for key, res, meta in pool.imap_unordered(_work, excl_jobs + keys):
+            if isinstance(key, tuple):
+                _kf_cache[("excl", key[1], key[2])] = res
+                continue
             all_results.extend(res)
             metas[key] = meta
 
@@ -221,6 +243,9 @@ def main() -> int:
     violations: list[str] = []
     bp = os.path.join(VERIF, "baseline", f"{pid}.json")
     baseline = set(json.load(open(bp))["discharged_labels"]) if os.path.exists(bp) else set()
+    # labels of known-finding cells whose re-check with the finding's witness class excluded was fully discharged on the unchanged tree
+    baseline_excl = set(json.load(open(bp)).get("known_finding_labels_discharged_with_the_witness_excluded", [])) if os.path.exists(bp) else set()
+    kf_excl_ok: set[str] = set()
     conc_cache: dict = {}
     standin_cache: dict = {}
     bounded_seen: dict = {}
@@ -320,15 +345,21 @@ def main() -> int:
                 continue
             faults.append(f"bounded stand-in {sb['id']} did not complete: {b_out[-300:]}")
             continue
+        lost_excluded = False
         if kf is not None:
             ok, why = check_known(kf, r, _V)
             if ok:
+                if kf.get("exclude"):
+                    kf_excl_ok.add(r["label"])
                 if kf.get("_seen") is None:
                     kf["_seen"] = True
                     known_seen.append(f"KNOWN-FINDING: property={pid} {kf['id']} {r['label']}: {kf['what']}")
                 continue
             rout = (rout + "\n" + why)[-3000:]
-        if r["status"] == UNKNOWN and r["reason"] in ("timeout", "canceled") and reproduced is not True and r["label"] not in baseline:
+            # on the unchanged tree this cell was discharged once the finding's witness class was excluded; now it is not: a
+            # different failure in the same cell (reported even if the solver only times out, like any baseline obligation)
+            lost_excluded = r["label"] in baseline_excl
+        if r["status"] == UNKNOWN and r["reason"] in ("timeout", "canceled") and reproduced is not True and r["label"] not in baseline and not lost_excluded:
             # a resource outcome on an obligation that is not known to hold on the unchanged tree: undecided, never a violation
             undecided.append(f"{r['label']} [{r['path'][-80:]}]: solver {r['reason']}")
             continue
@@ -420,7 +451,8 @@ def main() -> int:
         with open(bp, "w") as f:
             json.dump({"property": pid, "repo_tree_hash": repo.tree_hash(),
                        "comment": "obligation labels discharged on the unchanged tree (all path instances); an obligation listed here that is no longer discharged is reported as a violation even when the solver only times out",
-                       "discharged_labels": [x for x in proved_labels if x not in not_all]}, f, indent=0)
+                       "discharged_labels": [x for x in proved_labels if x not in not_all],
+                       "known_finding_labels_discharged_with_the_witness_excluded": sorted(kf_excl_ok)}, f, indent=0)
     os.makedirs(os.path.join(VERIF, "evidence"), exist_ok=True)
     with open(os.path.join(VERIF, "evidence", f"{pid}.json"), "w") as f:
         json.dump(ev, f, indent=1, default=str)
